@@ -53,6 +53,14 @@ def extract(pkgdir, decl, genfile='k_band.go.orig'):
                 if v != '_' and v not in vs:
                     vs.append(v)
     prog['vars'] = vs
+    vz = {'_': 'zero'}
+    vt = dict((n, t) for n, t in prog.get('vartypes', []))
+    for v in vs + [n for n, _ in prog['params']]:
+        t = vt.get(v, '')
+        base = t.lstrip('*').split('.')[-1]
+        form = decl['types'].get(base, {}).get('form', '')
+        vz[v] = 'nil' if (t.startswith('*') or form == 'iface') else 'zero'
+    prog['vzero'] = vz
     return prog
 
 
